@@ -77,6 +77,12 @@ def goKeywords : List Bytes :=
    "goto", "package", "switch", "const", "fallthrough", "if", "range", "type", "continue", "for", "import",
    "return", "var"].map str
 
+/-- package names that are no keywords and still unusable for the emitted file: a `package main` cannot be
+    imported (and does not build without `func main`), and go/build IGNORES every file whose package clause is
+    `package documentation` (the name reserved for doc-only files): a directory that holds nothing else
+    fails with "build constraints exclude all Go files" -/
+def reservedPkgNames : List Bytes := [str "main", str "documentation"]
+
 /-- `n` tab characters -/
 def tabs : Nat → Bytes
   | 0 => []
